@@ -79,7 +79,9 @@ func checkC11(r *mc.Report, thorough bool) {
 	kinds := allKinds()
 	// (incl. the integer boundaries: index arithmetic on a parsed key must not overflow)
 	keysFull := []string{"", "0", "1", "2", "5", "-1", "01", " 1", "1.5", "x", "a", "1000", "1001", "99999999999999999999",
-		"2147483647", "2147483648", "4294967295", "9223372036854775806", "9223372036854775807", "9223372036854775808", "-9223372036854775808", "+1", "1e3", "0x1"}
+		"2147483647", "2147483648", "4294967295", "9223372036854775806", "9223372036854775807", "9223372036854775808", "-9223372036854775808", "+1", "1e3", "0x1",
+		// forms that parse differently under another base or syntax (octal-looking, prefixed, digit separators)
+		"010", "0010", "017", "0o10", "0b10", "1_0", "0x10"}
 	valsFull := []float64{0, 1, -1, 0.5, 255, 256, 9.223372036854775807e18, 1.8446744073709552e19, 1e300, -1e300, math.Inf(1), math.Inf(-1), math.NaN()}
 	tombsFull := []int{0, 1, 2, 3, -1, -2}
 	texts := []string{"", "t"}
